@@ -8,8 +8,8 @@ from mirsym.lib import MapV
 # material chosen so that exact / prefix+unit / plural readings collide:  ks = k+s | K? ; ms = m+s ; mins = min+s | m+ins ;
 # kin = k+in ; kis = ki+s | k+is ; min = min | m+in
 PREFIXES = ['k', 'ki', 'm']
-STEMS = ['s', 'm', 'in', 'ins', 'min', 'is', 'ks', 'ms', 'K']
-QUERIES = ['s', 'ks', 'ms', 'kis', 'min', 'mins', 'kin', 'kins', 'kmin', 'mm', 'ss', 'K', 'Ks', 'kks', 'mis', 'x', 'ans', '_', 'ANS', 'Ans', 'aNs', '__']
+STEMS = ['s', 'm', 'in', 'ins', 'min', 'is', 'å', 'ks', 'ms', 'K']
+QUERIES = ['s', 'ks', 'ms', 'kis', 'min', 'mins', 'kin', 'kins', 'kmin', 'mm', 'ss', 'K', 'Ks', 'kks', 'mis', 'x', 'ans', '_', 'ANS', 'Ans', 'aNs', '__', 'ås', 'kås', 'å']
 
 
 def build_registry(ex, I, stems, prefixes, tag=''):
